@@ -1,4 +1,7 @@
 SPECIFICATION Spec
 CONSTANTS Desc = {1, 2}
   OnCancel = "kill-child"
+  ReapedGroupKill = TRUE
+  WaitDelay = FALSE
 PROPERTIES StopReturns
+CHECK_DEADLOCK FALSE
